@@ -183,6 +183,24 @@ def registrations(full):
               lambda c: c.register_structure_hook_factory(lambda t: t is TA, lambda t: (lambda o, _: TA(o.get("a", 0) + 300)))))
     R.append(("register_unstructure_hook_factory(lambda t: t is TA, factory(type, converter))",
               lambda c: c.register_unstructure_hook_factory(lambda t: t is TA, lambda t, conv: (lambda x: {"a": x.a + 300}))))
+    # the DECORATOR form of the factory registrations, with two-argument factories that look the inner hooks up when the hook is generated
+    def dec_un(c):
+        @c.register_unstructure_hook_factory(lambda t: t is THolder)
+        def _fac(t, conv):
+            return make_dict_unstructure_fn(t, conv)
+
+    def dec_st(c):
+        @c.register_structure_hook_factory(lambda t: t is THolder)
+        def _fac(t, conv):
+            return make_dict_structure_fn(t, conv)
+
+    def dec_un1(c):
+        @c.register_unstructure_hook_factory(lambda t: t is TDHolder)
+        def _fac(t):
+            return make_dict_unstructure_fn(t, c)
+    R.append(("@register_unstructure_hook_factory(lambda t: t is THolder) def factory(type, converter): return make_dict_unstructure_fn(type, converter)", dec_un))
+    R.append(("@register_structure_hook_factory(lambda t: t is THolder) def factory(type, converter): return make_dict_structure_fn(type, converter)", dec_st))
+    R.append(("@register_unstructure_hook_factory(lambda t: t is TDHolder) def factory(type): return make_dict_unstructure_fn(type, conv)", dec_un1))
     R.append(("register_structure_hook(int, f)", lambda c: c.register_structure_hook(int, lambda o, _: int(o) + 1000)))
     R.append(("register_unstructure_hook(int, f)", lambda c: c.register_unstructure_hook(int, lambda x: x + 1000)))
     R.append(("register_structure_hook(Union[TA, TB], f)", lambda c: c.register_structure_hook(U_AB, lambda o, _: TB("from-union-hook"))))
